@@ -165,6 +165,16 @@ CHECKS = {
              'document, content type, empty-200, 415-and-no-execution and escaping exceptions are judged against a twin '
              'dispatcher called directly, and the three replies to one request against each other.',
         note='trusted: the twin dispatcher (itself judged by C01-C03); loop-back sockets must be available for the aiohttp part'),
+    'C16': dict(
+        category='exploration', design_ref='DESIGN.md §3 C16',
+        technique='runtime monitor: official meta-schema validation (out of process), $ref resolver, purity fingerprints, metamorphic isolation relation',
+        text='Generated method sets (annotated parameter / return types incl. models and enums, docstrings, annotation '
+             'combinations incl. a shared errors list and component prefixes on some methods only, view methods, the same name on '
+             'two endpoints) x five extractor stacks x endpoint prefixes are turned into OpenAPI 3.1.0 / 3.0.3 and OpenRPC 1.3.2 '
+             'documents 1..3 times; exceptions, encodability, completeness, repeat-identity, fingerprints of metadata / user '
+             'objects, "entry alone == entry together in any order", "a specification object reused for another registry == a '
+             'fresh one" are judged in process, meta-schema validity and dangling $refs by a jsonschema-4 worker.',
+        note='trusted: vendored meta-schemas (hash-pinned copies of tests/server/resources), jsonschema 4.26 of python3-vt; known findings D13d, D22, D23'),
 }
 
 NOT_BUILT_REASON = 'no check registered yet in this round (monitor under construction, see DESIGN.md §3)'
